@@ -171,11 +171,59 @@ def r1_columns(ctx, rep):
        f"the comment test reads columns {sorted(cols)} of the card", an)
     cols = cards.columns(role(an, "label"))
     ob("label field is columns 1-5", cols == {(1, 5)}, "label = columns 1-5", f"the label is taken from columns {sorted(cols)}", an)
-    cols = cards.columns(role(an, "isNewComment"))
-    ob("a `!` comment is looked for in the label field only", bool(cols) and all(1 <= a and b <= 5 for a, b in cols),
-       f"the `!` test reads columns {sorted(cols)}",
-       f"the `!`-comment test reads columns {sorted(cols)}: column 6 is the continuation column, any character there other than "
-       f"blank and 0 - also `!` - marks a continuation line, it does not start a comment", an)
+    nc = role(an, "isNewComment")
+    cols = cards.columns(nc)
+
+    def first_nonblank_bang(e: ast.AST) -> bool:
+        """`<line stripped of leading blanks>` starts with `!`: .lstrip()/.strip() followed by startswith('!') / [0] == '!' / [:1] == '!'"""
+        for n in ast.walk(e):
+            recv = None
+            if isinstance(n, ast.Call) and isinstance(n.func, ast.Attribute) and n.func.attr == "startswith" and n.args and \
+                    isinstance(n.args[0], ast.Constant) and n.args[0].value == "!":
+                recv = n.func.value
+            if isinstance(n, ast.Compare) and len(n.ops) == 1 and isinstance(n.ops[0], (ast.Eq, ast.NotEq)) and \
+                    isinstance(n.comparators[0], ast.Constant) and n.comparators[0].value == "!" and isinstance(n.left, ast.Subscript):
+                recv = n.left.value
+            if recv is None:
+                continue
+            for x in [recv] + astq.expand_locals(recv, an, depth=4, stop=("line",)):
+                if any(isinstance(c, ast.Call) and isinstance(c.func, ast.Attribute) and c.func.attr in ("lstrip", "strip")
+                       for c in ast.walk(x)):
+                    return True
+        return False
+    by_first_char = any(first_nonblank_bang(e) for e in nc)
+    if by_first_char:
+        # the position of that `!` must be told apart from column 6 (index 5): a comparison of a computed column with 5 / 6, or a
+        # test of the column-6 character itself
+        six = any(isinstance(n, ast.Compare) and len(n.ops) == 1 and
+                  any(isinstance(c, ast.Constant) and c.value in (5, 6) for c in [n.left, n.comparators[0]]) for e in nc for n in ast.walk(e)) \
+            or (6, 6) in cols
+        ob("a `!` comment is not looked for in column 6", six,
+           "the first visible character is tested, with column 6 excluded",
+           "a line is taken for a comment whenever its first visible character is `!` - also when that is column 6, the continuation "
+           "column, where any character other than blank and 0 (also `!`) marks a continuation line", an)
+    else:
+        ob("a `!` comment is not looked for in column 6", bool(cols) and all(1 <= a and b <= 5 for a, b in cols),
+           f"the `!` test reads columns {sorted(cols)}",
+           f"the `!`-comment test reads columns {sorted(cols)}: column 6 is the continuation column, any character there other than "
+           f"blank and 0 - also `!` - marks a continuation line, it does not start a comment", an)
+    # comment lines and blank lines may stand between a statement and its continuation (3.3.3.1): they must not be taken for the
+    # statement line - otherwise the continuation mark is put on them and the statement itself is cut short.  A `!` comment can
+    # start in any column but 6, so it has to be recognised by the first visible character, not only in the label field; a line of
+    # blanks only (of any length) is no statement either.
+    reg = role(an, "is_regular")
+    flags = {n.attr for e in reg for n in ast.walk(e) if isinstance(n, ast.Attribute) and ast.unparse(n.value) == "self"}
+    ob("a comment that starts beyond the label field is a comment line", by_first_char,
+       "`!` comments are recognised by the first visible character of the card",
+       "a card with blanks in columns 1-6 and a `!` comment after them counts as a statement: it receives the continuation mark of the "
+       "card that follows, the statement before it is not continued and the file is rejected or documented wrongly", an)
+    blank = any(any(isinstance(c, ast.Call) and isinstance(c.func, ast.Attribute) and c.func.attr in ("isspace", "strip", "lstrip", "rstrip")
+                    for c in ast.walk(x)) for f_ in flags for v in _attr_value(an, f_) for x in cards.closure(v, an)
+                if f_ not in ("isContinuation",))
+    ob("a card of blanks only is not a statement line", blank,
+       "blank cards are not `regular` whatever their length",
+       "only cards of at most 6 characters count as blank: a longer card of blanks between a statement and its continuation receives "
+       "the continuation mark", an)
     # the continuation mark has to go between the statement and a trailing comment: whatever does that has to look for `!`
     cli = cl
     rx = {name.split(".")[-1]: pat for name, (pat, *_rest) in py.regex_constants().items()}
